@@ -29,7 +29,8 @@ ASSUMPTIONS = [
 ]
 DECIDED = ["a slot/cache table", "b seeding after start", "c fold during scan", "d run loop table", "e advance_simulation term",
            "f wall clock does not reach simulation time", "g node scheduler re-arm", "i validate_times",
-           'l a failed child cycle is not resumed (= C01.d2)', "m try_except pulls the child's schedule on the failing exit too (= C15.c)"]
+           'l a failed child cycle is not resumed (= C01.d2)', "m try_except pulls the child's schedule on the failing exit too (= C15.c)",
+           'n the active switch_ branch is evaluated on every visit (= C12.a)', 'o start-cycle schedule written after the user start hook (= C03.f)']
 NOT_DECIDED = ["that user nodes request the times they should", "wall-clock now() values", "whole-run trace equality"]
 
 HDR = r"graph_header\(.*\)"
